@@ -143,6 +143,11 @@ pub struct TlsWorld {
     /// end offsets of the pieces of `app_script` the client hands to its TLS layer one write at a
     /// time (each write becomes its own record); empty = everything in one write
     pub app_chunks: Vec<usize>,
+    /// the n-th write() of the server (0-based) fails once with this error kind (100 Interrupted,
+    /// 101 WouldBlock, 102 TimedOut) before taking any bytes
+    pub write_fault: Option<(u64, u8)>,
+    pub nwrite: u64,
+    pub write_fault_hit: bool,
     /// garbage to send instead of a ClientHello (malformed-input workloads)
     pub instead_of_hello: Option<Vec<u8>>,
     /// stop sending after this many raw client bytes (truncated ClientHello etc.)
@@ -185,6 +190,9 @@ impl TlsWorld {
             ssl_seq: 1,
             app_script,
             app_chunks: vec![],
+            write_fault: None,
+            nwrite: 0,
+            write_fault_hit: false,
             instead_of_hello: None,
             raw_limit: None,
             close_notify: true,
@@ -373,6 +381,19 @@ impl Write for TlsTransport {
         if w.nops > w.budget_ops {
             w.wedged = true;
             return Err(io::Error::new(io::ErrorKind::Other, "vmon: operation budget exhausted"));
+        }
+        let idx = w.nwrite;
+        w.nwrite += 1;
+        if let Some((k, kind)) = w.write_fault {
+            if k == idx {
+                w.write_fault_hit = true;
+                let kind = match kind {
+                    100 => io::ErrorKind::Interrupted,
+                    101 => io::ErrorKind::WouldBlock,
+                    _ => io::ErrorKind::TimedOut,
+                };
+                return Err(io::Error::new(kind, "vmon: injected transient transport fault"));
+            }
         }
         let n = buf.len().min(w.write_limit);
         w.on_server_bytes(&buf[..n]);
